@@ -21,6 +21,10 @@ from .core import AnalysisError, dotted, norm
 from .normalize import as_test, negate
 
 
+# re-exported for rule modules (sym.negate / sym.as_test)
+__all_reexport__ = (as_test, negate)
+
+
 class Unmodelled(Exception):
     pass
 
@@ -273,6 +277,7 @@ class _Walker:
                 marker._sym_head = head  # type: ignore[attr-defined]
                 marker._sym_env = dict(env)  # type: ignore[attr-defined]
                 marker._sym_orig = st  # type: ignore[attr-defined]
+                marker._sym_pre = len(effects)  # type: ignore[attr-defined]
                 sub = _Walker(self.fn, self.max_paths)
                 sub.out = self.out
                 sub.block(list(st.body), inner_env, conds, loops + (marker,), effects, after=[])
@@ -597,13 +602,8 @@ def iteration_effects(outs: Sequence[Outcome], loop, facts: Dict[str, bool]):
     pre = None
     res, seen = [], set()
     for o in select(inl, facts, kinds=("fall", "continue", "break", "return", "raise", "yield", "yield_from")):
-        # effects recorded before the loop was entered are a common prefix of every in-loop outcome
-        if pre is None:
-            pre = min((len(x.effects) for x in inl), default=0)
-            common = 0
-            while common < pre and all(norm(x.effects[common]) == norm(inl[0].effects[common]) and not _in_loop_effect(x.effects[common]) for x in inl):
-                common += 1
-            pre = common
+        mk = [l for l in o.loops if l._sym_orig is loop._sym_orig][0]
+        pre = getattr(mk, "_sym_pre", 0)
         own = [simplify(e, facts) if not isinstance(e, (ast.For, ast.While)) else e for e in o.effects[pre:]]
         key = (o.kind, tuple(norm(e) for e in own), norm(o.value) if o.value is not None else None)
         if key not in seen:
